@@ -97,6 +97,13 @@ void bn_rec_win(uint8_t *win, size_t *len, const bn_t k, size_t w) {
 
 	l = bn_bits(k);
 
+	if (l == 0) {
+		/* Zero has no windows. */
+		memset(win, 0, *len);
+		*len = 0;
+		return;
+	}
+
 	if (*len < RLC_CEIL(l, w)) {
 		*len = 0;
 		RLC_THROW(ERR_NO_BUFFER);
@@ -106,7 +113,7 @@ void bn_rec_win(uint8_t *win, size_t *len, const bn_t k, size_t w) {
 	memset(win, 0, *len);
 
 	j = 0;
-	for (i = 0; i < l - w; i += w) {
+	for (i = 0; i < l - (int)w; i += w) {
 		win[j++] = get_bits(k, i, i + w - 1);
 	}
 	win[j++] = get_bits(k, i, bn_bits(k) - 1);
